@@ -126,7 +126,11 @@ func (x *Ctx) Unit(c *Cfg) bool {
 	if x.locating {
 		if x.cfgIdx == x.locCfg {
 			x.located = true
-			x.emitLine(map[string]any{"t": "L", "pass": x.pass.Name, "input": x.curInput, "cfg": c})
+			preds := map[string]bool{}
+			for name, f := range inputPreds {
+				preds[name] = f(x.curInput, c)
+			}
+			x.emitLine(map[string]any{"t": "L", "pass": x.pass.Name, "input": x.curInput, "cfg": c, "preds": preds})
 		}
 		return false
 	}
@@ -316,7 +320,7 @@ func (x *Ctx) runPasses(passes []*Pass) {
 			x.st.States++
 			x.st.PassStates[p.Name]++
 			p.Eval(x, in)
-			if time.Since(lastProgress) > 2*time.Second {
+			if time.Since(lastProgress) > 500*time.Millisecond {
 				lastProgress = time.Now()
 				x.summary(false)
 			}
@@ -326,6 +330,8 @@ func (x *Ctx) runPasses(passes []*Pass) {
 		} else {
 			break
 		}
+		x.summary(false)
+		lastProgress = time.Now()
 	}
 	atomic.StoreUint64(&wdSeq, 0)
 	x.summary(true)
@@ -334,6 +340,9 @@ func (x *Ctx) runPasses(passes []*Pass) {
 // ---- watchdog: per-unit wall budget and heap budget, enforced from a second goroutine
 
 var wdSeq, wdBeat uint64
+
+func wdBeatAdd() { atomic.AddUint64(&wdBeat, 1) }
+
 var wdBudgetNs, wdHeap, wdDefBudgetNs, wdDefHeap int64
 var budgetScale = 1.0
 
